@@ -335,6 +335,22 @@ def F45():
     return cnt == hist and m.sample_counter_ == 12, f"fit then fit_gif: counters {cnt}, label histogram {hist}, sample_counter_ {m.sample_counter_} for 12 samples"
 
 
+def F46():
+    from artlib import FALCON
+    f = FALCON(FuzzyART(0.5, 0.01, 1.0), FuzzyART(0.5, 0.01, 1.0), FuzzyART(0.5, 0.01, 1.0), channel_dims=[2, 2, 2])
+    s_, a = cc(np.array([[0.2], [0.8]])), cc(np.array([[0.25], [0.75]]))
+    r = cc(np.array([[0.0], [0.0]]))
+    try:
+        with quiet():
+            f.prepare_data(*[np.array([[0.0], [1.0]])] * 3)
+            f.fit(s_, a, r)
+            np.random.seed(0)
+            act = f.get_probabilistic_action(s_[0])
+    except Exception as e:
+        return False, f"all predicted rewards 0: get_probabilistic_action raised {e!r}"
+    return bool(np.all(np.isfinite(act))), f"all predicted rewards 0: get_probabilistic_action returned {np.asarray(act).tolist()}"
+
+
 ALL = {k: v for k, v in list(globals().items()) if k[0] == "F" and k[1:3].isdigit()}
 
 if __name__ == "__main__":
